@@ -130,15 +130,25 @@ class Capture:
         return text, errs
 
 
+import re as _re
+_LOCPAT = _re.compile(r"^(.*), line (\d+) col (\d+) of (.*)$")
+
+
 def diags_of(errs, loc=-1):
-    """Turn raw stderr writes of print_message (no Location: single line) into (kind, msg, loc)."""
+    """Turn raw stderr writes of print_message into (kind, msg, loc). With a Location the message's
+    first line ends in ', line L col C of PATH' and is followed by the quoted source line."""
     res = []
     for e in errs:
-        line = e[:-1] if e.endswith("\n") else e
+        line = e.split("\n")[0]
+        m = _LOCPAT.match(line)
+        this_loc = loc
+        if m:
+            line = m.group(1)
+            this_loc = int(m.group(2)) * 10000 + int(m.group(3))
         if line.startswith("Warning: "):
-            res.append((1, line[len("Warning: "):], loc))
+            res.append((1, line[len("Warning: "):], this_loc))
         elif line.startswith("Error: "):
-            res.append((2, line[len("Error: "):], loc))
+            res.append((2, line[len("Error: "):], this_loc))
         else:
-            res.append((3, line, loc))
+            res.append((3, line, this_loc))
     return res
